@@ -706,6 +706,80 @@ def nested_path_check(src: str, nodes: list[dict], must_raise: bool, shorthand: 
     return checks, None
 
 
+def program_check(templates: dict[str, str], entry: str, expect_name: str, strict: bool) -> tuple[int, str | None]:
+    """Render a multi-template program (render and render_async). For the
+    LiquidError it raises: the token's source is the source of the template the
+    error names, the span lies inside that source, that template is the one
+    that contains the failing construct, and the printed line / column / pointer
+    agree with an independent line count in that source."""
+    import asyncio
+
+    from liquid2 import DictLoader, Environment, StrictUndefined
+    from liquid2.exceptions import LiquidError
+
+    env = Environment(loader=DictLoader(templates), undefined=StrictUndefined) if strict else Environment(
+        loader=DictLoader(templates))
+    checks = 0
+    for how in ("render", "render_async"):
+        err: Any = None
+        try:
+            t = env.get_template(entry)
+            if how == "render":
+                t.render()
+            else:
+                loop = asyncio.new_event_loop()
+                try:
+                    loop.run_until_complete(t.render_async())
+                finally:
+                    loop.close()
+        except LiquidError as e:
+            err = e
+        except Exception:  # noqa: BLE001  (C02's business)
+            continue
+        if err is None:
+            return checks, f"program-location: {how} of a program with a failing construct in {expect_name!r} raised nothing"
+        tok = getattr(err, "token", None)
+        if tok is None or tok.start < 0:
+            continue
+        checks += 1
+        name = err.template_name
+        if name not in templates:
+            return checks, f"program-location: {how}: {type(err).__name__} names template {name!r}, which is not one of {sorted(templates)}"
+        src = templates[name]
+        if tok.source != src:
+            owner = [k for k, v in templates.items() if v == tok.source]
+            return checks, (f"program-location: {how}: {type(err).__name__} names template {name!r} ({len(src)} characters) but its "
+                            f"token [{tok.start}:{tok.stop}) belongs to the source of {owner or 'another text'}")
+        if not (0 <= tok.start <= tok.stop <= len(src)):
+            return checks, f"program-location: {how}: token [{tok.start}:{tok.stop}) outside the source of {name!r} ({len(src)})"
+        if name != expect_name:
+            return checks, f"program-location: {how}: the failing construct is in {expect_name!r}, the error names {name!r}"
+        lf = location_check(err, src)
+        if lf:
+            return checks, lf
+    return checks, None
+
+
+def extraction_check(src: str) -> tuple[int, str | None]:
+    """The line number that message extraction reports for each 'M<k>' message
+    is the line the message is written on (counted independently)."""
+    import re
+
+    from liquid2.exceptions import LiquidError
+    from liquid2.messages import extract_from_template
+
+    try:
+        got = sorted((m.message[0], m.lineno) for m in extract_from_template(env_for(False).from_string(src)))
+    except LiquidError as e:
+        return 0, f"extraction-line: a generated template did not parse: {type(e).__name__}"
+    except Exception:  # noqa: BLE001  (C15's business)
+        return 0, None
+    want = sorted((m.group(0), src.count("\n", 0, m.start()) + 1) for m in re.finditer(r"M\d+", src))
+    if got != want:
+        return len(want), f"extraction-line: extract_from_template reports {got}, the messages are written on {want}"
+    return len(want), None
+
+
 # ---------------------------------------------------------------- correspondence with one retry
 
 
